@@ -83,6 +83,7 @@ def set_case(rng, pair, slot):
     case['rout'] = rng.choice(OUTS)
     case['lpre'], case['rpre'] = rng.choice([('l_', 'r_'), ('l_', 'r_'), ('left.', 'r'), ('', 'R_')])
     case['n_jobs'] = rng.choice([1, 1, 1, 1, 1, 1, 2, 3])
+    case['progress'] = 1 if rng.random() < 0.06 else 0
     sdtype = rng.choice(['object', 'object', 'str'])
     render = render_set(rng)
     case['L'] = table_spec(rng, 'L', [None if v == [0] else v for v in pair['L']], render, sdtype)
@@ -113,6 +114,7 @@ def str_case(rng, pair, slot):
     case['rout'] = rng.choice(OUTS)
     case['lpre'], case['rpre'] = rng.choice([('l_', 'r_'), ('left.', 'r')])
     case['n_jobs'] = rng.choice([1, 1, 1, 1, 2, 3])
+    case['progress'] = 1 if rng.random() < 0.06 else 0
     sdtype = rng.choice(['object', 'object', 'str'])
     render = lambda v: ''.join('ab'[c - 1] for c in v)
     case['L'] = table_spec(rng, 'L', [None if v == [0] else v for v in pair['L']], render, sdtype)
